@@ -106,6 +106,7 @@ impl Identifier {
     { unimplemented!() }
 }
 
+pub uninterp spec fn expiry_value(e: IggyExpiry, c: &SystemConfig) -> IggyExpiry;
 pub uninterp spec fn limit_ok(m: MaxTopicSize, c: &SystemConfig) -> bool;
 pub uninterp spec fn limit_value(m: MaxTopicSize, c: &SystemConfig) -> MaxTopicSize;
 // --- Topic: construction, validation and persistence are other subsystems; persistence returns Ok (fault scope of C06) ---
@@ -115,8 +116,11 @@ impl Topic {
     pub fn get_max_topic_size(max_topic_size: MaxTopicSize, config: &SystemConfig) -> (r: Result<MaxTopicSize, IggyError>)
         ensures r is Ok <==> limit_ok(max_topic_size, config), r matches Ok(v) ==> v == limit_value(max_topic_size, config),
     { unimplemented!() }
+    // Topic::get_message_expiry — ASSUMED here (value uninterpreted), PROVED in units retention ([C14.open.resolve], [C14.shape.resolve])
+    // and wiring ([C14.create.resolve]): the server default resolves to the configured expiry, anything else is kept
     #[verifier::external_body]
     pub fn get_message_expiry(message_expiry: IggyExpiry, config: &SystemConfig) -> (r: IggyExpiry)
+        ensures r == expiry_value(message_expiry, config),
     { unimplemented!() }
     #[verifier::external_body]
     pub fn create(stream_id: u32, topic_id: u32, name: &Name, partitions_count: u32, config: SystemConfig, storage: SystemStorage,
